@@ -56,14 +56,23 @@ def extrema_path(R, NC, cols, with_x):
         S.set_engine(eng)
         extrema = _cla()["extrema"]
         eng.tag("onecol" if cols == 1 else "twocol")
+        ALIAS = []
 
         def run(order):
             cur = SimpleNamespace(ext=None, ext_x=None, maxcase=None, mincase=None,
                                   mx=np.empty((R, NC), dtype=object), mn=np.empty((R, NC), dtype=object),
                                   mx_x=np.empty((R, NC), dtype=object), mn_x=np.empty((R, NC), dtype=object))
+            kept = []
             for c in order:
                 mm = SimpleNamespace(ext=data[c].copy(), ext_x=(xs[c].copy() if with_x else None))
                 extrema(cur, mm, "case%d" % c, casenum=c)
+                kept.append((c, mm))
+            # the per-case records handed in stay what they were (no aliasing into the running envelope)
+            for c, mm in kept:
+                same = all(mm.ext[idx] is data[c][idx] for idx in np.ndindex(*data[c].shape))
+                if with_x:
+                    same = same and all(mm.ext_x[idx] is xs[c][idx] for idx in np.ndindex(*xs[c].shape))
+                ALIAS.append((c, same))
             return cur
 
         data, xs = [], []
@@ -80,6 +89,8 @@ def extrema_path(R, NC, cols, with_x):
             xs.append(xx)
         cur = run(range(NC))
         obls = []
+        for c, same in ALIAS:
+            obls.append(E.Obl("extrema leaves the record of case %d it was given unchanged" % c, same))
         for r in range(R):
             for col in (0, 1):
                 src = col if cols == 2 else 0
@@ -405,15 +416,21 @@ def replay_extrema(p):
     mdl = p["model"]
     cur = SimpleNamespace(ext=None, ext_x=None, maxcase=None, mincase=None,
                           mx=np.zeros((R, NC)), mn=np.zeros((R, NC)), mx_x=np.zeros((R, NC)), mn_x=np.zeros((R, NC)))
-    data, xs = [], []
+    data, xs, kept_ = [], [], []
     for c in range(NC):
         ext = np.array([[_fl(mdl, "v%d_%d_%d" % (c, r, k), "v%d_%d_%d_nan" % (c, r, k)) for k in range(cols)] for r in range(R)])
-        xx = np.array([[_fl(mdl, "x%d_%d_%d" % (c, r, k)) for k in range(cols)] for r in range(R)])
+        # abscissas never steer extrema(): make them distinct per case/row/column so that copies are traceable
+        xx = np.array([[_fl(mdl, "x%d_%d_%d" % (c, r, k)) + 1000.0 * (c + 1) + 10.0 * r + k for k in range(cols)] for r in range(R)])
         data.append(ext)
         xs.append(xx)
-        cla.extrema(cur, SimpleNamespace(ext=ext.copy(), ext_x=xx.copy() if with_x else None), "case%d" % c, casenum=c)
+        mm_ = SimpleNamespace(ext=ext.copy(), ext_x=xx.copy() if with_x else None)
+        kept_.append(mm_)
+        cla.extrema(cur, mm_, "case%d" % c, casenum=c)
     A = np.array(data)     # NC x R x cols
     problems = []
+    for c, mm_ in enumerate(kept_):
+        if not np.array_equal(mm_.ext, data[c], equal_nan=True) or (with_x and not np.array_equal(mm_.ext_x, xs[c], equal_nan=True)):
+            problems.append("the record of case%d that was passed in was modified by later calls (ext_x %s, originally %s)" % (c, mm_.ext_x.tolist() if with_x else None, xs[c].tolist()))
     with np.errstate(all="ignore"):
         import warnings
         warnings.simplefilter("ignore")
